@@ -1,4 +1,5 @@
 """C15 DDDMP: writer/reader tables"""
+import ebin
 import edddmp
 import etaint
 import elin
@@ -46,4 +47,15 @@ def run(ctx):
     edddmp.check_numbering(ctx, F)
     ctx.explain("E-DDDMP.order: the importer rejects a node whose level is >= the level of one of its children (import_ascii, import_bin).")
     edddmp.check_level_order_checks(ctx, F)
+    ctx.explain("E-DDDMP.bincodes (+ .vars): the writer's choice of binary id / variable codes and the reader's decoding are "
+                "interpreted over a small exhaustive domain: the reader inverts the writer (child ids for node ids 2..9, "
+                "variable indices 0..5 with every topmost-child index, terminal children); the three payload numbers are "
+                "written exactly for AbsoluteID / RelativeID in the order variable, then, else; binary mode only for binary "
+                "single-terminal diagrams unless ASCII is requested. E-DDDMP.ascii: variable loops range over 0..nvars, terminal "
+                "lines end in ` 0 0`, the node counter starts at 0, complemented edges are written as negative ids. "
+                "(None of this is exercised by the repository's tests: there is no export/import round-trip test.)")
+    nb = ebin.run(ctx, F)
+    nb += ebin.check_var_codes(ctx, F)
+    ctx.floor("E-DDDMP.bincodes", "writer/reader agreement cases", nb, 60)
+    ebin.check_ascii_writer(ctx, F)
     ctx.not_decided = "round-trip equality of diagrams, totality on malformed input (value reasoning about indices and counts)"
